@@ -958,6 +958,10 @@ class BatchMessage(_MessageType):
             raise UnsupportedOperation(
                 "Keyspaces may only be set on queries with protocol version "
                 "5 or higher. Consider setting Cluster.protocol_version to 5.")
+        if self.serial_consistency_level and protocol_version < 3:
+            raise UnsupportedOperation(
+                "Serial consistency levels on batches require the use of protocol version "
+                "3 or higher. Consider setting Cluster.protocol_version to 3.")
         if protocol_version >= 3:
             flags = 0
             if self.serial_consistency_level:
